@@ -227,8 +227,14 @@ func c16Hist(r *gen.Rand, n int, backend string) *c16Case {
 		switch r.Intn(10) {
 		case 0, 1, 2, 3:
 			k := c16Key(r, dirs)
+			if len(written) > 0 && r.Chance(1, 3) {
+				k = written[r.Intn(len(written))] // write an existing key again: overwrite or refused create
+			}
 			written = append(written, k)
-			cs.Ops = append(cs.Ops, c16Op{Op: "put", Key: k, Data: r.Bytes(r.Intn(6)), Excl: r.Bool()})
+			cs.Ops = append(cs.Ops, c16Op{Op: "put", Key: k, Data: r.Bytes(r.Intn(14)), Excl: r.Bool()})
+			if r.Chance(1, 2) {
+				cs.Ops = append(cs.Ops, c16Op{Op: "get", Key: k})
+			}
 		case 4:
 			k := c16Key(r, dirs)
 			if len(written) > 0 && r.Bool() {
